@@ -707,7 +707,15 @@ impl FixtureDatabase {
             if trimmed.starts_with('@') {
                 // Check this decorator line for scope="..." or scope='...'
                 for pattern in &["scope=\"", "scope='"] {
-                    if let Some(pos) = trimmed.find(pattern) {
+                    // `scope=` as a keyword of its own, not the tail of another
+                    // keyword such as pytest-asyncio's `loop_scope=`
+                    let found = trimmed.match_indices(pattern).map(|(p, _)| p).find(|&p| {
+                        !trimmed[..p]
+                            .chars()
+                            .next_back()
+                            .is_some_and(|c| c.is_alphanumeric() || c == '_')
+                    });
+                    if let Some(pos) = found {
                         let start = pos + pattern.len();
                         let quote_char = if pattern.ends_with('"') { '"' } else { '\'' };
                         if let Some(end) = trimmed[start..].find(quote_char) {
